@@ -186,6 +186,15 @@ func c18SubfieldAgreement(c *Ctx, r *Report, info *types.Info, tname string, fd 
 			exp := map[string]string{}
 			for _, cl := range sw.Body.List {
 				cc := cl.(*ast.CaseClause)
+				// an arm that names reference values and expands nothing: Go does not fall through, so those
+				// values lose their components (an arm nobody needs is not written)
+				if len(cc.List) > 0 && len(cc.Body) == 0 {
+					var nm []string
+					for _, e := range cc.List {
+						nm = append(nm, exprStr(e))
+					}
+					r.fail("C18-R2-subfield-agreement", fmt.Sprintf("%s.expandComponents/%s-empty-arm-%s", tname, src, strings.Join(nm, "+")), c.pos(cc.Pos()), "the expansion of "+src+" names "+strings.Join(nm, ", ")+" in an arm of its own that expands nothing (a `case` does not fall through to the next): messages with that reference value keep their component fields invalid")
+				}
 				var body []string
 				for _, st := range cc.Body {
 					body = append(body, strings.Join(strings.Fields(stmtStr(c, st)), ""))
